@@ -10,12 +10,22 @@ C22  Bufio.tla      stateful: reader/writer over an abstract stream; generated o
                     (TraceBufio.tla) against Layer P (byte stream + counters).
 """
 import json
+import os
 import random
 
 from lib import vlib
 
 
 # ----------------------------------------------------------------------------- C19
+def model_only(ctx, *a, **kw):
+    """MC run of a mechanism model on its own (no code involved).  VERIF_UTIL_SKIP_MC=1 skips it; used
+    only to demonstrate the binding on mutated code quickly (the evidence says so)."""
+    if os.environ.get("VERIF_UTIL_SKIP_MC") == "1":
+        ctx.notes.append("VERIF_UTIL_SKIP_MC: model-only run %s/%s skipped" % (a[0], a[1]))
+        return None
+    return ctx.tlc_must_pass(*a, **kw)
+
+
 def ipdict_run(ctx, cases, label):
     if not cases:
         raise vlib.MachineryError("no cases generated (%s)" % label)
@@ -56,22 +66,24 @@ def check_c19(ctx):
                        "CheckAndLoad) and IPTable.Search is compared on every address of the domain incl. the one "
                        "above it, IPv4 in 4- and 16-byte form. evaluations = Search calls compared; distinct = "
                        "distinct non-empty dictionaries.")
-    # 1. TLC: the mechanism model (sort + marker merge + truncate + binary search) equals Contains
-    mcs = [{"A": 3, "MAXR": 3, "MAXS": 2}, {"A": 5, "MAXR": 3, "MAXS": 0}] if q else \
-          [{"A": 3, "MAXR": 4, "MAXS": 2}, {"A": 8, "MAXR": 3, "MAXS": 0}, {"A": 4, "MAXR": 4, "MAXS": 0}]
-    for i, d in enumerate(mcs):
-        ctx.cov["constants"]["MC_IpDict_%d" % i] = d
-        ctx.tlc_must_pass("Util", "IpDict", "MC_IpDict.cfg", defines=d, timeout=2400)
-    # 2. cases: exhaustive small + wider ranges-only + simulated larger dictionaries
-    gens = [({"A": 3, "MAXR": 3, "MAXS": 2}, "mc", 0), ({"A": 5, "MAXR": 3, "MAXS": 0}, "mc", 0),
-            ({"A": 8, "MAXR": 6, "MAXS": 2}, "sim", 4000)] if q else \
-           [({"A": 3, "MAXR": 3, "MAXS": 2}, "mc", 0), ({"A": 8, "MAXR": 3, "MAXS": 0}, "mc", 0),
-            ({"A": 3, "MAXR": 4, "MAXS": 1}, "mc", 0),
-            ({"A": 8, "MAXR": 7, "MAXS": 3}, "sim", 60000), ({"A": 20, "MAXR": 10, "MAXS": 3}, "sim", 20000)]
+    # 1. TLC, exhaustive: the mechanism model (sort + marker merge + truncate + binary search) equals
+    #    Contains for every input, and every input is printed with the membership Layer P dictates
+    both = [{"A": 3, "MAXR": 3, "MAXS": 2}, {"A": 5, "MAXR": 3, "MAXS": 0}] if q else \
+           [{"A": 3, "MAXR": 3, "MAXS": 2}, {"A": 6, "MAXR": 3, "MAXS": 0}, {"A": 3, "MAXR": 4, "MAXS": 1}]
+    only = [] if q else [{"A": 8, "MAXR": 3, "MAXS": 0}, {"A": 4, "MAXR": 4, "MAXS": 0}]
     cases = []
-    for d, mode, num in gens:
-        ctx.cov["constants"]["Gen_IpDict_%s_A%d_R%d_S%d" % (mode, d["A"], d["MAXR"], d["MAXS"])] = dict(d, num=num)
-        cases += ipdict_gen(ctx, d, mode, num, depth=d["MAXR"] + d["MAXS"] + 3)
+    for d in both:
+        ctx.cov["constants"]["MCGen_IpDict_A%d_R%d_S%d" % (d["A"], d["MAXR"], d["MAXS"])] = d
+        cases += ctx.tlc_must_pass("Util", "GenIpDict", "MCGen_IpDict.cfg", defines=d, timeout=2400).cases
+    for d in only:
+        ctx.cov["constants"]["MC_IpDict_A%d_R%d_S%d" % (d["A"], d["MAXR"], d["MAXS"])] = d
+        model_only(ctx, "Util", "IpDict", "MC_IpDict.cfg", defines=d, timeout=2400)
+    # 2. TLC-simulated larger dictionaries (more ranges than the exhaustive bound)
+    sims = [({"A": 8, "MAXR": 6, "MAXS": 2}, 4000)] if q else \
+           [({"A": 8, "MAXR": 7, "MAXS": 3}, 60000), ({"A": 20, "MAXR": 10, "MAXS": 3}, 20000)]
+    for d, num in sims:
+        ctx.cov["constants"]["Gen_IpDict_sim_A%d_R%d_S%d" % (d["A"], d["MAXR"], d["MAXS"])] = dict(d, num=num)
+        cases += ipdict_gen(ctx, d, "sim", num, depth=d["MAXR"] + d["MAXS"] + 3)
     ctx.cov["exhaustive"] = True
     ipdict_run(ctx, cases, "C19")
 
@@ -182,7 +194,7 @@ def check_c20(ctx):
     for cap, k, hms in mcs:
         d = {"K": k, "CAP": cap, "VALID": "{1,2,3,4}" if cap < 4 else "{1,2,3,4,5}", "HASH": hms, "STEPS": 0}
         ctx.cov["constants"]["MC_HashSet_cap%d" % cap] = d
-        ctx.tlc_must_pass("Util", "HashSet", "MC_HashSet.cfg", defines=d, timeout=2400)
+        model_only(ctx, "Util", "HashSet", "MC_HashSet.cfg", defines=d, timeout=2400)
     # 2. behaviours
     cases = []
     gens = [({"K": 4, "CAP": 2, "VALID": "{1,2,3}", "HASH": '{"const"}', "OPS": 4 if q else 5}, "mc", 0, 0),
@@ -294,31 +306,37 @@ def check_c22(ctx):
                        "reply and the TotalRead/TotalWrite value read after every call against Layer P (std bufio must "
                        "satisfy the same Layer P, otherwise no verdict). distinct = distinct scripts.")
     # 1. TLC: the mechanism models satisfy Layer P and the counter clauses in every reachable state
-    rd = {"CLASSES": ALLC, "SYMS": 3, "CHUNKS": "{1,100,15002}", "EOFS": "{TRUE,FALSE}", "READS": "{1,3,16}",
-          "PEEKS": "{1,16}", "DELIMS": "{2}"} if q else \
-         {"CLASSES": ALLC, "SYMS": 4, "CHUNKS": "{1,3,100,15002,16}", "EOFS": "{TRUE,FALSE}", "READS": "{1,2,5,16,20}",
-          "PEEKS": "{0,1,3,16}", "DELIMS": "{1,2}"}
-    ctx.cov["constants"]["MC_BufR"] = rd
-    ctx.tlc_must_pass("Util", "BufR", "MC_BufR.cfg", defines=rd, timeout=3000)
+    XRN = '{"X","r","n"}'
+    rds = [{"CLASSES": XRN, "SYMS": 3, "MAXLEN": 17, "CHUNKS": "{1,100,15002}", "EOFS": "{TRUE,FALSE}", "READS": "{2,16}",
+            "PEEKS": "{16}", "DELIMS": "{2}"}] if q else \
+          [{"CLASSES": ALLC, "SYMS": 3, "MAXLEN": 48, "CHUNKS": "{1,100,15002}", "EOFS": "{TRUE,FALSE}",
+            "READS": "{1,3,16}", "PEEKS": "{1,16}", "DELIMS": "{1,2}"},
+           {"CLASSES": XRN, "SYMS": 4, "MAXLEN": 48, "CHUNKS": "{3,100}", "EOFS": "{TRUE,FALSE}", "READS": "{2,20}",
+            "PEEKS": "{16}", "DELIMS": "{2}"}]
+    for i, rd in enumerate(rds):
+        ctx.cov["constants"]["MC_BufR_%d" % i] = rd
+        model_only(ctx, "Util", "BufR", "MC_BufR.cfg", defines=rd, timeout=3000)
     wd = {"WS": "{0,1,2,15,16,17,33}", "FS": "{0,1,16,17,33}", "FC": "{1,5,100}", "MAXACC": 50 if q else 70}
     ctx.cov["constants"]["MC_BufW"] = wd
-    ctx.tlc_must_pass("Util", "BufW", "MC_BufW.cfg", defines=wd, timeout=3000)
+    model_only(ctx, "Util", "BufW", "MC_BufW.cfg", defines=wd, timeout=3000)
     # 2. behaviours
     cases = []
-    g = {"CLASSES": '{"X","r","n"}', "SYMS": 3, "CHUNKS": "{100,1}", "EOFS": "{FALSE}", "READS": "{2,16}",
-         "PEEKS": "{16}", "DELIMS": "{2}", "OPS": 2 if q else 3}
+    g = {"CLASSES": XRN, "SYMS": 3, "MAXLEN": 33, "CHUNKS": "{100,1}", "EOFS": "{FALSE}", "READS": "{2,16}",
+         "PEEKS": "{16}", "DELIMS": "{2}", "OPS": 2}
+    if not q:
+        g = dict(g, CLASSES=ALLC, CHUNKS="{100,1,3}", EOFS="{TRUE,FALSE}")
     ctx.cov["constants"]["Gen_BufR_mc"] = g
     cases += bufio_gen(ctx, "GenBufR", "Gen_BufR.cfg", g)
-    g = {"CLASSES": ALLC, "SYMS": 5, "CHUNKS": "{1,3,100,15002,7,16}", "EOFS": "{TRUE,FALSE}", "READS": "{1,2,5,16,20}",
-         "PEEKS": "{0,1,3,16}", "DELIMS": "{1,2}", "OPS": 10}
-    ctx.cov["constants"]["Gen_BufR_sim"] = dict(g, num=1500 if q else 30000)
-    cases += bufio_gen(ctx, "GenBufR", "Gen_BufR.cfg", g, "sim", 1500 if q else 30000, 14)
+    g = {"CLASSES": ALLC, "SYMS": 5, "MAXLEN": 80, "CHUNKS": "{1,3,100,15002,7,16}", "EOFS": "{TRUE,FALSE}",
+         "READS": "{1,2,5,16,20}", "PEEKS": "{0,1,3,16}", "DELIMS": "{1,2}", "OPS": 10}
+    ctx.cov["constants"]["Gen_BufR_sim"] = dict(g, num=1200 if q else 30000)
+    cases += bufio_gen(ctx, "GenBufR", "Gen_BufR.cfg", g, "sim", 1200 if q else 30000, 14)
     g = {"WS": "{0,1,15,17,33}", "FS": "{0,17,33}", "FC": "{5,100}", "MAXACC": 200, "OPS": 2 if q else 3}
     ctx.cov["constants"]["Gen_BufW_mc"] = g
     cases += bufio_gen(ctx, "GenBufW", "Gen_BufW.cfg", g)
     g = {"WS": "{0,1,2,15,16,17,33}", "FS": "{0,1,16,17,33}", "FC": "{1,5,100}", "MAXACC": 400, "OPS": 10}
-    ctx.cov["constants"]["Gen_BufW_sim"] = dict(g, num=500 if q else 8000)
-    cases += bufio_gen(ctx, "GenBufW", "Gen_BufW.cfg", g, "sim", 500 if q else 8000, 14)
+    ctx.cov["constants"]["Gen_BufW_sim"] = dict(g, num=400 if q else 8000)
+    cases += bufio_gen(ctx, "GenBufW", "Gen_BufW.cfg", g, "sim", 400 if q else 8000, 14)
     bufio_run(ctx, cases, "C22")
 
 
